@@ -331,6 +331,120 @@ def gen_file2(rel, src):
     return res
 
 
+def gen_file3(rel, src):
+    """Third operator set: statement order, duplicated statements, dropped else, swapped table elements / keyword values, wrong attribute, group indices."""
+    tree = ast.parse(src)
+    lines = src.splitlines(keepends=True)
+    out = []
+    parents = {}
+    for n in ast.walk(tree):
+        for c in ast.iter_child_nodes(n):
+            parents[id(c)] = n
+
+    def in_logging(n):
+        while n is not None:
+            if isinstance(n, ast.Call) and isinstance(n.func, ast.Attribute) and isinstance(n.func.value, ast.Name) and n.func.value.id == "logging":
+                return True
+            n = parents.get(id(n))
+        return False
+
+    def S(n):
+        return seg(lines, n)
+
+    def simple(st):
+        return isinstance(st, (ast.Assign, ast.AugAssign, ast.Expr)) and not (isinstance(st, ast.Expr) and isinstance(st.value, ast.Constant)) and not in_logging(st.value if hasattr(st, "value") else st)
+    for n in ast.walk(tree):
+        for field in ("body", "orelse", "finalbody"):
+            blk = getattr(n, field, None)
+            if not isinstance(blk, list) or not blk or not isinstance(blk[0], ast.stmt):
+                continue
+            if isinstance(n, (ast.Module, ast.ClassDef)):
+                continue
+            for a, b in zip(blk, blk[1:]):
+                if simple(a) and simple(b) and a.col_offset == b.col_offset:
+                    a0, a1 = S(a)
+                    b0, b1 = S(b)
+                    out.append((a0, b1, src[b0:b1] + src[a1:b0] + src[a0:a1], "stmt-swap", a.lineno))
+            for st in blk:
+                if isinstance(st, (ast.AugAssign,)) or (isinstance(st, ast.Expr) and isinstance(st.value, ast.Call) and not in_logging(st.value)):
+                    a0, a1 = S(st)
+                    indent = " " * st.col_offset
+                    out.append((a0, a1, src[a0:a1] + "\n" + indent + src[a0:a1], "stmt-duplicated", st.lineno))
+        if isinstance(n, ast.If) and n.orelse and not (len(n.orelse) == 1 and isinstance(n.orelse[0], ast.If)):
+            a0 = S(n.orelse[0])[0]
+            a1 = S(n.orelse[-1])[1]
+            out.append((a0, a1, "pass", "else-dropped", n.orelse[0].lineno))
+        if isinstance(n, (ast.List, ast.Tuple)) and isinstance(n.ctx, ast.Load) and 2 <= len(n.elts) and not in_logging(n):
+            for a, b in zip(n.elts, n.elts[1:]):
+                a0, a1 = S(a)
+                b0, b1 = S(b)
+                if src[a0:a1] != src[b0:b1]:
+                    out.append((a0, b1, src[b0:b1] + src[a1:b0] + src[a0:a1], "elts-swapped", a.lineno))
+        if isinstance(n, ast.Call) and len(n.keywords) >= 2 and not in_logging(n):
+            kws = [k for k in n.keywords if k.arg is not None]
+            for a, b in zip(kws, kws[1:]):
+                a0, a1 = S(a.value)
+                b0, b1 = S(b.value)
+                if src[a0:a1] != src[b0:b1]:
+                    out.append((a0, b1, src[b0:b1] + src[a1:b0] + src[a0:a1], "kw-values-swapped", a.value.lineno))
+        if isinstance(n, ast.Attribute) and isinstance(n.value, ast.Name) and n.value.id == "self" and isinstance(n.ctx, ast.Load) and not in_logging(n):
+            cls = n
+            while cls is not None and not isinstance(cls, ast.ClassDef):
+                cls = parents.get(id(cls))
+            if cls is not None:
+                attrs = sorted({x.attr for x in ast.walk(cls) if isinstance(x, ast.Attribute) and isinstance(x.value, ast.Name) and x.value.id == "self" and isinstance(x.ctx, ast.Store)})
+                a0, a1 = S(n)
+                k = 0
+                for other in attrs:
+                    if other != n.attr and k < 2 and not isinstance(parents.get(id(n)), ast.Call) or (other != n.attr and k < 2 and parents.get(id(n)).func is not n):
+                        out.append((a0, a1, "self." + other, "wrong-attr", n.lineno))
+                        k += 1
+        if rel.endswith("default_pwd_regexes.py") and isinstance(n, ast.Constant) and isinstance(n.value, int) and not isinstance(n.value, bool):
+            a0, a1 = S(n)
+            out.append((a0, a1, repr(n.value + 1), "group-index", n.lineno))
+            if n.value > 0:
+                out.append((a0, a1, repr(n.value - 1), "group-index", n.lineno))
+        if isinstance(n, ast.Return) and n.value is not None and not isinstance(n.value, ast.Constant):
+            fn = n
+            while fn is not None and not isinstance(fn, (ast.FunctionDef, ast.AsyncFunctionDef)):
+                fn = parents.get(id(fn))
+            if fn is not None:
+                params = [a.arg for a in fn.args.args if a.arg not in ("self", "cls")]
+                a0, a1 = S(n.value)
+                for pn in params[:2]:
+                    if src[a0:a1] != pn:
+                        out.append((a0, a1, pn, "return-param", n.lineno))
+    res = []
+    seen = set()
+    for a, b, repl, op, ln in out:
+        new = src[:a] + repl + src[b:]
+        if new == src or (a, b, repl) in seen:
+            continue
+        seen.add((a, b, repl))
+        try:
+            ast.parse(new)
+        except SyntaxError:
+            continue
+        res.append((op, ln, src[a:b], repl, new))
+    return res
+
+
+def cmd_gen3(outdir):
+    os.makedirs(outdir, exist_ok=True)
+    n = 0
+    for rel in FILES2:
+        src = open(os.path.join("/repo", rel)).read()
+        for op, ln, old, repl, new in gen_file3(rel, src):
+            n += 1
+            mid = "mw%04d" % n
+            d = os.path.join(outdir, mid)
+            os.makedirs(d, exist_ok=True)
+            diff = "".join(difflib.unified_diff(src.splitlines(keepends=True), new.splitlines(keepends=True), "a/" + rel, "b/" + rel, n=3))
+            open(os.path.join(d, "patch.diff"), "w").write(diff)
+            json.dump({"file": rel, "line": ln, "operator": op, "old": old[:120], "new": repl[:120]}, open(os.path.join(d, "meta.json"), "w"), indent=1)
+    print("mutants:", n)
+
+
 def cmd_gen2(outdir):
     os.makedirs(outdir, exist_ok=True)
     n = 0
@@ -451,6 +565,8 @@ if __name__ == "__main__":
         cmd_gen(outdir)
     elif cmd == "gen2":
         cmd_gen2(outdir)
+    elif cmd == "gen3":
+        cmd_gen3(outdir)
     elif cmd == "test":
         cmd_test(outdir, jobs)
     elif cmd == "check":
